@@ -118,17 +118,14 @@ def spec_rm(tree: dict, names: list[str], attrpath_parents: set):
     return t
 
 
-def attrpath_parents_of(text: str) -> set:
-    """Paths (tuples of names) that exist in the target set only as attrpath prefixes
+def attrpath_parents_in(binding_nodes) -> set:
+    """Paths (tuples of names) that exist in a binding sequence only as attrpath prefixes
     (`a.b = 1;` makes ('a',) an attrpath parent)."""
-    root = cstread.ts_parse(text)
-    tgt = cstread.find_target(root)
     out = set()
     explicit = set()
 
-    def walk(setnode, prefix):
-        bs = [c for c in setnode.named_children if c.type == "binding_set"]
-        for b in bs[0].named_children if bs else []:
+    def walk(bindings, prefix):
+        for b in bindings:
             if b.type != "binding":
                 continue
             ap = b.child_by_field_name("attrpath")
@@ -140,11 +137,36 @@ def attrpath_parents_of(text: str) -> set:
             explicit.add(tuple(prefix + names))
             val = b.child_by_field_name("expression")
             if val.type in ("attrset_expression", "rec_attrset_expression"):
-                walk(val, prefix + names)
+                bs = [c for c in val.named_children if c.type == "binding_set"]
+                walk(bs[0].named_children if bs else [], prefix + names)
 
-    if tgt is not None:
-        walk(tgt, [])
+    walk(binding_nodes, [])
     return out - explicit
+
+
+def attrpath_parents_of(text: str) -> set:
+    root = cstread.ts_parse(text)
+    tgt = cstread.find_target(root)
+    if tgt is None:
+        return set()
+    bs = [c for c in tgt.named_children if c.type == "binding_set"]
+    return attrpath_parents_in(bs[0].named_children if bs else [])
+
+
+def let_layer_parents(text: str) -> list[set]:
+    """attrpath parents of every let layer on the spine, outermost first"""
+    root = cstread.ts_parse(text)
+    tgt = cstread.find_target(root)
+    out = []
+    node = tgt
+    while node is not None and node.parent is not None:
+        par = node.parent
+        if par.type == "let_expression" and par.child_by_field_name("body") == node:
+            bs = [c for c in par.named_children if c.type == "binding_set"]
+            out.append(attrpath_parents_in(bs[0].named_children if bs else []))
+        node = par
+    out.reverse()
+    return out
 
 
 def value_as_tree(value_text: str):
